@@ -9,7 +9,7 @@ use crate::fns;
 /// Upper bound used for per-tick size estimates of replaying ('static) state.
 const T_EST: usize = 10;
 /// No edge may be estimated to carry more items per tick than this.
-const SIZE_CAP: usize = 2500;
+const SIZE_CAP: usize = 4000;
 pub const SRC_ITEMS_MAX: usize = 6;
 
 /// The operator x persistence catalogue the run has to cover (parameters are placeholders).
@@ -244,15 +244,7 @@ impl<'r> B<'r> {
                 ins[k] = self.handoff(ins[k]);
             }
         }
-        let leaf_only = matches!(op, Op::ReduceNoReplay(..));
-        let i = self.add_raw(op, ins);
-        if leaf_only {
-            // open finding (push-side reduce_no_replay drops single-item ticks): observe the operator
-            // in isolation so that the finding keeps one stable signature
-            self.sink((i, 0));
-            self.cons[i][0] = 99;
-        }
-        i
+        self.add_raw(op, ins)
     }
     fn add_raw(&mut self, op: Op, ins: Vec<Edge>) -> usize {
         let sizes: Vec<usize> = ins.iter().map(|&(j, p)| self.size.get(j).map_or(SRC_ITEMS_MAX, |s| s[p])).collect();
@@ -310,6 +302,11 @@ impl<'r> B<'r> {
         }
         *self.r.choose(&all)
     }
+    /// A stream estimated to carry at most what a source carries.
+    fn pick_small(&mut self) -> Edge {
+        let v: Vec<Edge> = self.all_edges().into_iter().filter(|&(i, p)| self.size[i][p] <= SRC_ITEMS_MAX).collect();
+        if v.is_empty() { (self.r.below(self.nsrc), 0) } else { *self.r.choose(&v) }
+    }
     /// An edge that already has a consumer (so the new consumer hangs off a tee: push side).
     fn pick_teed(&mut self) -> Edge {
         let v: Vec<Edge> = self.all_edges().into_iter().filter(|&(i, p)| self.cons[i][p] >= 1).collect();
@@ -330,8 +327,14 @@ impl<'r> B<'r> {
             None => 2 + self.r.below(2),
         };
         let mut ins: Vec<Edge> = vec![];
+        let mut attempt = 0;
+        loop {
+        ins.clear();
         for k in 0..n_in {
-            let mut e = if k == 0 && push == Some(true) {
+            let mut e = if attempt > 0 {
+                // the first choice was estimated too large: feed it from small streams
+                self.pick_small()
+            } else if k == 0 && push == Some(true) {
                 self.pick_teed()
             } else {
                 let want_open = push == Some(false) || self.r.chance(1, 2);
@@ -356,8 +359,13 @@ impl<'r> B<'r> {
             }
             ins.push(e);
         }
-        if !self.would_fit(&op, &ins) {
+        if self.would_fit(&op, &ins) {
+            break;
+        }
+        attempt += 1;
+        if attempt >= 3 {
             return None;
+        }
         }
         // a non-lazy deferral of a replaying stream would keep `run_available` ticking forever
         let op = if op == Op::DeferTick && !self.snapshot().quiet()[ins[0].0][ins[0].1] { Op::DeferTickLazy } else { op };
@@ -376,8 +384,12 @@ impl<'r> B<'r> {
             }
             Some(false) => {
                 if self.nodes[i].op.n_out() == 1 && self.r.chance(2, 3) {
-                    let other = self.pick(false);
-                    if other != (i, 0) && self.would_fit(&Op::Union, &[(i, 0), other]) {
+                    // a union partner makes the operator a pull-side node; the partner is a plain
+                    // filtered source so that a deviation behind the union is still attributable
+                    let src = (self.r.below(self.nsrc), 0);
+                    let fp = self.r.below(fns::N_PRED as usize) as u8;
+                    let other = (self.add(Op::Filter(fp), vec![src]), 0);
+                    if self.would_fit(&Op::Union, &[(i, 0), other]) {
                         self.add(Op::Union, vec![(i, 0), other]);
                     }
                 }
@@ -398,18 +410,11 @@ impl<'r> B<'r> {
                 }
             }
         }
-        let room = max_sinks.saturating_sub(self.nsinks).max(1);
-        if open.len() <= room {
-            for e in open {
-                self.sink(e);
-            }
-        } else {
-            let (own, rest) = open.split_at(room - 1);
-            for &e in own {
-                self.sink(e);
-            }
-            let u = self.add(Op::Union, rest.to_vec());
-            self.sink((u, 0));
+        // every open output gets its own sink: an operator hidden behind a merging union could
+        // not be named in a violation signature
+        let _ = max_sinks;
+        for e in open {
+            self.sink(e);
         }
     }
 
@@ -432,6 +437,8 @@ impl<'r> B<'r> {
 pub struct Todo {
     /// (template, push hint)
     pub items: Vec<(Op, Option<bool>)>,
+    /// how many of the leading "one instance of every catalogue entry" items are still unplaced
+    pub first_pass_left: usize,
 }
 
 impl Todo {
@@ -452,11 +459,21 @@ impl Todo {
         }
         r.shuffle(&mut first);
         r.shuffle(&mut second);
+        let n_first = first.len();
         first.extend(second);
-        Todo { items: first }
+        Todo { items: first, first_pass_left: n_first }
+    }
+    /// Put an item that could not be placed back (at the end of the first-pass region).
+    fn requeue(&mut self, op: Op, hint: Option<bool>) {
+        let at = self.first_pass_left.min(self.items.len());
+        self.items.insert(at, (op, hint));
+        self.first_pass_left += 1;
     }
     fn take(&mut self, r: &mut Rng, allow: impl Fn(&Op) -> bool) -> (Op, Option<bool>) {
         if let Some(pos) = self.items.iter().position(|(o, _)| allow(o)) {
+            if pos < self.first_pass_left {
+                self.first_pass_left -= 1;
+            }
             return self.items.remove(pos);
         }
         // everything covered: random catalogue entry
@@ -469,9 +486,12 @@ fn not_defer(o: &Op) -> bool {
     !o.is_defer()
 }
 
-fn gen_ops(r: &mut Rng, todo: &mut Todo, id: usize) -> Program {
+/// `left`: Ops-mode programs still to come (incl. this one); the remaining first-pass to-do items
+/// are spread over them so that every run covers the whole catalogue.
+fn gen_ops(r: &mut Rng, todo: &mut Todo, id: usize, left: usize) -> Program {
     let nsrc = 1 + r.below(3);
-    let n_ops = 5 + r.below(5);
+    let need = todo.first_pass_left.div_ceil(left.max(1));
+    let n_ops = (5 + r.below(5)).max(need + 1).min(14);
     let mut b = B::new(r, nsrc);
     let mut placed = 0;
     let mut tries = 0;
@@ -491,7 +511,7 @@ fn gen_ops(r: &mut Rng, todo: &mut Todo, id: usize) -> Program {
             placed += 1;
         } else {
             // did not fit (size): put it back for a later program
-            todo.items.push((tpl, hint));
+            todo.requeue(tpl, hint);
         }
     }
     b.finish(id, Mode::Ops, 0)
@@ -550,10 +570,10 @@ fn gen_deep(r: &mut Rng, todo: &mut Todo, id: usize, c: usize) -> Program {
     deep_target(&mut b, todo, (2 * c + 1) % DEEP_KINDS, depth2, false);
     // downstream: 0..2 more operators from the to-do list
     for _ in 0..b.r.below(3) {
-        let (tpl, hint) = todo.take(b.r, |o| not_defer(o) && !matches!(o, Op::Inspect(_) | Op::ReduceNoReplay(..)));
+        let (tpl, hint) = todo.take(b.r, |o| not_defer(o) && !matches!(o, Op::Inspect(_)));
         let op = randomize(&tpl, b.r);
         if b.place(op, hint).is_none() {
-            todo.items.push((tpl, hint));
+            todo.requeue(tpl, hint);
         }
     }
     b.finish(id, Mode::Deep, depth)
@@ -654,6 +674,7 @@ fn deep_target(b: &mut B, todo: &mut Todo, kind: usize, depth: usize, probes: bo
                     Op::Fold(..)
                         | Op::FoldNoReplay(..)
                         | Op::Reduce(..)
+                        | Op::ReduceNoReplay(..)
                         | Op::FoldKeyed(..)
                         | Op::ReduceKeyed(..)
                         | Op::LatticeFold(..)
@@ -715,7 +736,7 @@ fn gen_defer(r: &mut Rng, todo: &mut Todo, id: usize, c: usize) -> Program {
     while placed < n_ops && tries < 20 {
         tries += 1;
         let (tpl, hint) = todo.take(b.r, |o| {
-            !matches!(o, Op::Inspect(_) | Op::ReduceNoReplay(..))
+            !matches!(o, Op::Inspect(_))
                 && (o.is_defer()
                     || !o.persistence().is_empty()
                     || matches!(o, Op::MultisetDelta | Op::DeferSignal | Op::Union | Op::Sort))
@@ -724,7 +745,7 @@ fn gen_defer(r: &mut Rng, todo: &mut Todo, id: usize, c: usize) -> Program {
         if b.place(op, hint).is_some() {
             placed += 1;
         } else {
-            todo.items.push((tpl, hint));
+            todo.requeue(tpl, hint);
         }
     }
     b.close(5);
@@ -767,10 +788,14 @@ pub fn generate(seed: u64, n: usize) -> Vec<Program> {
     let mut todo = Todo::new(&mut r);
     let mut out = vec![];
     let (mut n_deep, mut n_defer) = (0, 0);
+    let mut ops_left = (0..n).filter(|i| mode_of(*i) == Mode::Ops).count();
     for id in 0..n {
         let mut pr = r.fork(id as u64 + 1);
         let p = match mode_of(id) {
-            Mode::Ops => gen_ops(&mut pr, &mut todo, id),
+            Mode::Ops => {
+                ops_left -= 1;
+                gen_ops(&mut pr, &mut todo, id, ops_left + 1)
+            }
             Mode::Deep => {
                 n_deep += 1;
                 gen_deep(&mut pr, &mut todo, id, n_deep - 1)
@@ -782,5 +807,11 @@ pub fn generate(seed: u64, n: usize) -> Vec<Program> {
         };
         out.push(p);
     }
+    LEFTOVER.with(|l| *l.borrow_mut() = todo.items.iter().take(todo.first_pass_left).map(|(o, _)| cover_key(o)).collect());
     out
+}
+
+thread_local! {
+    /// Catalogue entries the last `generate` call could not place (reported by build.rs).
+    pub static LEFTOVER: std::cell::RefCell<Vec<String>> = const { std::cell::RefCell::new(Vec::new()) };
 }
